@@ -235,6 +235,19 @@ func (s *storage) Fetch(ctx context.Context, plainBR blob.Ref) (io.ReadCloser, u
 		return nil, 0, fmt.Errorf("encrypt: encrypted blob %s failed validation: %w", encBR, err)
 	}
 
+	// The meta blob that maps plainBR to encBR is authenticated, but not
+	// bound to its kind: the encryption of a user blob whose content looks
+	// like meta data is itself a valid meta blob, and can be substituted
+	// for one in the meta store. So also check the plaintext.
+	plainHash := plainBR.Hash()
+	if plainHash == nil {
+		return nil, 0, blobserver.ErrCorruptBlob
+	}
+	plainHash.Write(plainBytes.Bytes())
+	if !plainBR.HashMatches(plainHash) || uint32(plainBytes.Len()) != plainSize {
+		return nil, 0, blobserver.ErrCorruptBlob
+	}
+
 	return io.NopCloser(plainBytes), plainSize, nil
 }
 
